@@ -448,7 +448,11 @@ func (in *Interp) collectWitness() {
 	if !need {
 		return
 	}
+	// a witness is an input on which the path is taken AND every assertion holds
 	in.S.Push()
+	for _, c := range in.asserted {
+		in.S.Assert(c)
+	}
 	r := in.S.Check()
 	in.Res.Queries++
 	var m map[string]*big.Int
